@@ -21,7 +21,9 @@ RULE = ("case = (tensor tree of depth 1-3 with rank shapes 1-5 incl. explicit ze
         "extent - the model's shapes are the final extents); observation = "
         "payloads_root, coords_/payloads_ arrays per rank, and for every encoded fiber object of every level: "
         "format, coords, occupancies, leaf payloads, len(payloads), the slice scan through setupSlice/nextInSlice/"
-        "handleToCoord/handleToPayload/payloadToValue, coordToHandle(q) per query, getSize(). distinct = distinct "
+        "handleToCoord/handleToPayload/payloadToValue, coordToHandle(q) per query, getSize(); scans are taken twice, "
+        "fiber after fiber and interleaved in a depth-first walk (parent scan in flight while the children are "
+        "scanned), lookups sequentially and round-robin over all fibers - the disciplines must agree. distinct = distinct "
         "canonical JSON of the case; non-trivial = tensor has at least one non-zero leaf")
 TRUSTED = ["Coq 8.16.1 kernel (coqc; coqchk in the thorough tier); vm_compute used; native_compute not used",
            "Print Assumptions of every C20 theorem: Closed under the global context (no axioms)",
@@ -321,7 +323,70 @@ def run_impl(case):
             fl.append([code, [int(x) for x in f.coords], [int(x) for x in f.occupancies], vals,
                        len(f.payloads), scan, lookups, size])
         levels.append(fl)
+    _interleaved(case, ot, depth, levels)
     return [[int(x) for x in out["payloads_root"]], arrays, levels]
+
+
+def _interleaved(case, ot, depth, levels):
+    """The property speaks of scanning EACH fiber through ITS OWN handle interface: what one fiber yields
+    may not depend on what is done to other fibers meanwhile.  Besides the fiber-after-fiber pass above,
+    every fiber is therefore scanned a second time during a depth-first walk (a parent's scan is in flight
+    while each of its children is scanned completely, as a loop nest over the encoded tensor does), and
+    every lookup is repeated round-robin over all fibers.  On a correct implementation both disciplines
+    give the same per-fiber results, which is what the model describes; if they differ the interleaved
+    result is reported, closed by a [-8] marker (no model observation contains one)."""
+    from fibertree.codec.formats.uncompressed import Uncompressed
+    from fibertree.codec.formats.bitvector import Bitvector
+
+    def nchildren(f):
+        return int(f.shape) if isinstance(f, Uncompressed) else \
+            sum(1 for b in f.coords if b) if isinstance(f, Bitvector) else len(f.coords)
+    base = {}
+    for lvl in range(1, depth):
+        n = 0
+        for i, f in enumerate(ot[lvl]):
+            base[(lvl, i)] = n
+            n += nchildren(f)
+    dfs = {}
+
+    def walk(lvl, i):
+        f = ot[lvl][i]
+        leaf = lvl == depth
+        f.setupSlice(0)
+        res = []
+        e = 0
+        for _ in range(4 * (len(f.coords) + len(f.payloads)) + 16):
+            h = f.nextInSlice()
+            if h is None:
+                break
+            c = f.handleToCoord(h)
+            p = f.handleToPayload(h)
+            v = f.payloadToValue(p) if (leaf and p is not None) else None
+            res.append([_o(c), _o(p), _o(v)])
+            if not leaf:
+                j = base[(lvl, i)] + e
+                if j < len(ot[lvl + 1]) and (lvl + 1, j) not in dfs:
+                    walk(lvl + 1, j)
+            e += 1
+        else:
+            res.append([[-7], [-7], [-7]])
+        dfs[(lvl, i)] = res
+    if ot[1]:
+        walk(1, 0)
+    # lookups, one query at a time over all fibers (deepest level first, so that consecutive calls hit
+    # different fibers of the same format)
+    fibers = [(lvl, i) for lvl in range(depth, 0, -1) for i in range(len(ot[lvl]))]
+    rr = {k: [] for k in fibers}
+    for q in case["queries"]:
+        for (lvl, i) in fibers:
+            rr[(lvl, i)].append(_o(ot[lvl][i].coordToHandle(q)))
+    for (lvl, i) in fibers:
+        rec = levels[lvl - 1][i]
+        got = dfs.get((lvl, i))
+        if got != rec[5]:
+            rec[5] = (got or []) + [[[-8], [-8], [-8]]]
+        if rr[(lvl, i)] != rec[6]:
+            rec[6] = rr[(lvl, i)] + [[-8]]
 
 
 def repro_py(case):
